@@ -144,12 +144,36 @@ def install(mod, ex, S):
     def ret_big(e, st, a):
         return st, 1 << 20
 
-    table = {'C2Ev': ctor_default, 'C1Ev': ctor_default, 'C2ERKS4_': ctor_copy, 'C1ERKS4_': ctor_copy, 'C2EOS4_': ctor_copy, 'C1EOS4_': ctor_copy,
+    def chars(n, c):
+        if not (is_c(n) and is_c(c)):
+            raise Abort('string of a symbolic character / count')
+        return (('lit', bytes([c & 0xFF]) * n),)
+
+    def push_back(e, st, a):
+        put(e, st, a[0], binop(e, st, get(e, st, a[0]), S.intern(chars(1, a[1])), lambda x, y: S.intern(x + y)))
+        return st, a[0]
+
+    def append_nc(e, st, a):
+        put(e, st, a[0], binop(e, st, get(e, st, a[0]), S.intern(chars(a[1], a[2])), lambda x, y: S.intern(x + y)))
+        return st, a[0]
+
+    def ctor_nc(e, st, a):
+        put(e, st, a[0], S.intern(chars(a[1], a[2])))
+        return st, None
+
+    def ctor_cstr_n(e, st, a):
+        if not is_c(a[2]):
+            raise Abort('string(const char*, symbolic n)')
+        put(e, st, a[0], lit(e, st, a[1], a[2]))
+        return st, None
+
+    table = {'pLEc': push_back, '9push_backEc': push_back, '6appendEmc': append_nc, 'C2EmcRKS3_': ctor_nc, 'C1EmcRKS3_': ctor_nc, 'C2EPKcmRKS3_': ctor_cstr_n, 'C1EPKcmRKS3_': ctor_cstr_n,
+             '5clearEv': lambda e, st, a: (put(e, st, a[0], 0), (st, None))[1], 'C2Ev': ctor_default, 'C1Ev': ctor_default, 'C2ERKS4_': ctor_copy, 'C1ERKS4_': ctor_copy, 'C2EOS4_': ctor_copy, 'C1EOS4_': ctor_copy,
              'C2IS3_EEPKcRKS3_': ctor_cstr, 'C1IS3_EEPKcRKS3_': ctor_cstr, 'C2EPKcRKS3_': ctor_cstr, 'C1EPKcRKS3_': ctor_cstr,
              'C2ERKS3_': ctor_default, 'C1ERKS3_': ctor_default, 'aSEPKc': assign_cstr, 'pLEPKc': append_cstr, 'pLERKS4_': append_str, '6appendEPKc': append_cstr, '6appendERKS4_': append_str, '6appendEPKcm': append_cstr_n,
              '6insertEmPKc': insert_cstr, '6insertEmRKS4_': insert_str, 'D2Ev': nop, 'D1Ev': nop, '10_M_disposeEv': nop, '7reserveEm': nop,
              'aSEOS4_': lambda e, st, a: (ctor_copy(e, st, a)[0], a[0]), 'aSERKS4_': lambda e, st, a: (ctor_copy(e, st, a)[0], a[0])}
-    ktable = {'4sizeEv': size, '6lengthEv': size, '8capacityEv': ret_big}
+    ktable = {'4sizeEv': size, '6lengthEv': size, '8capacityEv': ret_big, '5emptyEv': lambda e, st, a: (st, bv(length_term(S, get(e, st, a[0])), 64) == 0)}
     names = set(mod.funcs) | set(mod.decls)
     for n in names:
         if n.startswith('@' + STRP):
